@@ -141,7 +141,7 @@ mk_global  xor_gen_sse, function
 func(xor_gen_sse)
 	FUNC_SAVE
 %ifidn PS,8				;64-bit code
-	sub	vec, 2			; Keep as offset to last source
+	sub	DWORD(vec), 2			; Keep as offset to last source (vects is an int: a negative count fails the test below)
 %else					;32-bit code
 	mov	tmp, arg(0)		; Update vec length arg to last source
 	sub	tmp, 2
